@@ -1,5 +1,5 @@
 (* Concrete graphs for the boundary behaviour of every guard (limit exactly reached / exceeded by one),
-   the witness of the discarded @defer limit error, and the parametric "deep chain => limit error". *)
+   the witness of the formerly discarded @defer limit error, and the parametric "deep chain => limit error". *)
 From ApolloVerif Require Import Base.Chars Ast.Ast Schema.Model Valid.Guards Valid.GuardsProofs.
 
 
@@ -100,16 +100,17 @@ Example ex_merge_sticky :
   gd_merge_document (ex_merge_children 130) (ex_merge_children 130) [ex_name 129; ex_name 0] = GrOk [false; true].
 Proof. vm_compute. repeat split. Qed.
 
-(* ---- the discarded limit error of the @defer walks (finding: defer_walk_limit_swallowed)
+(* ---- the limit error of the @defer walks (former finding defer_walk_limit_swallowed, repaired)
 
    mutation { m { ...F } ...G1 }
    fragment Gi on Mutation { (49 nested inline fragments) ...G(i+1) }   i = 1..10,  G10 ends in ...F
    fragment F on Mutation { ... @defer { x } }
 
    The deduplicating walk sees F first below the field `m` at depth 2, so it never walks F at depth 501;
-   forbid_defer_on_root does not descend into fields, reaches F only through G1..G10 at depth 501, stops
-   with the limit error, validate_defer discards it: the @defer on a root selection is not reported and
-   the document carries no recursion-limit diagnostic. *)
+   forbid_defer_on_root does not descend into fields, reaches F only through G1..G10 at depth 501 and stops
+   with the limit error: the @defer on a root selection is not reported.  Before the repair validate_defer
+   discarded that error and the document carried no recursion-limit diagnostic at all (gd_doc_walk_obs_old);
+   now it pushes the RecursionError. *)
 Definition ex_s (c : N) : str := [c].
 Definition ex_G (i : nat) : str := [71; N.of_nat i].
 Definition ex_F : str := [70].
@@ -123,13 +124,47 @@ Definition ex_defer_doc (n : nat) : document :=
                              (ex_nest false 49 [SSpread (if Nat.ltb i n then ex_G (S i) else ex_F) []]))
          (seq 1 n).
 
-Example ex_defer_swallowed :
-  let o := gd_doc_walk_obs (ex_defer_doc 10) in
+Example ex_defer_swallowed_old :
+  let o := gd_doc_walk_obs_old (ex_defer_doc 10) in
   gwo_defer_truncated o = true /\ gwo_defer_root o = 0%N /\ gwo_recursion o = 0%N /\ gwo_used_limit o = 0%N.
 Proof. vm_compute. repeat split. Qed.
 
-(* one fragment less: the same @defer is reported *)
+(* the same document after the repair: one RecursionError *)
+Example ex_defer_limit_reported :
+  let o := gd_doc_walk_obs (ex_defer_doc 10) in
+  gwo_defer_truncated o = true /\ gwo_defer_root o = 0%N /\ gwo_recursion o = 1%N /\ gwo_used_limit o = 0%N.
+Proof. vm_compute. repeat split. Qed.
+
+(* one fragment less: the same @defer is reported, before and after the repair *)
 Example ex_defer_reported :
   let o := gd_doc_walk_obs (ex_defer_doc 9) in
-  gwo_defer_truncated o = false /\ gwo_defer_root o = 1%N /\ gwo_recursion o = 0%N.
+  gwo_defer_truncated o = false /\ gwo_defer_root o = 1%N /\ gwo_recursion o = 0%N /\
+  gd_doc_walk_obs_old (ex_defer_doc 9) = o.
+Proof. vm_compute. repeat split. Qed.
+
+(* the label walk (validate_defer_labels) does not follow spreads: a fragment definition that no operation
+   uses, nested deeper than the limit (n inline fragments and the leaf field's own empty selection set), is
+   the document in which only that walk reaches the limit *)
+Definition ex_label_doc (n : nat) : document :=
+  [DOperation OpQuery None [] [] ex_leaf; DFragment ex_F [81] [] (ex_nest false n ex_leaf)].
+
+Example ex_label_limit_reported :
+  gwo_defer_truncated (gd_doc_walk_obs (ex_label_doc 499)) = false /\
+  gwo_recursion (gd_doc_walk_obs (ex_label_doc 499)) = 0%N /\
+  gwo_defer_truncated (gd_doc_walk_obs (ex_label_doc 500)) = true /\
+  gwo_recursion (gd_doc_walk_obs (ex_label_doc 500)) = 1%N /\
+  gwo_recursion (gd_doc_walk_obs_old (ex_label_doc 500)) = 0%N.
+Proof. vm_compute. repeat split. Qed.
+
+(* nothing is reported twice by validate_defer: a subscription whose deduplicating walk already failed keeps
+   its three diagnostics (unused-variable walk, fragments-used walk, subscription walk) *)
+Definition ex_sub_chain_doc (n : nat) : document :=
+  DOperation OpSubscription None [] [] [SSpread (ex_G 1) []]
+  :: map (fun i => DFragment (ex_G i) [83] [] (if Nat.ltb i n then [SSpread (ex_G (S i)) []] else ex_leaf))
+         (seq 1 n).
+
+Example ex_sub_chain_not_duplicated :
+  let o := gd_doc_walk_obs (ex_sub_chain_doc 600) in
+  gwo_defer_truncated o = true /\ gwo_recursion o = 2%N /\ gwo_used_limit o = 1%N /\
+  gd_doc_walk_obs_old (ex_sub_chain_doc 600) = o.
 Proof. vm_compute. repeat split. Qed.
